@@ -136,6 +136,7 @@ def run(tier):
     rep.rule('R16.find', 'lookup scans indices 0..15 and returns an entry only if it is valid and mapper address and generation are equal', floor=3)
     rep.rule('R16.add', 'add: known key -> refresh only; unknown key + free slot -> exactly one entry valid 0->1 with the key, count+1; full table -> NULL and no store', floor=10)
     rep.rule('R16.remove', 'remove: at most one valid entry with that key is invalidated, count-1 exactly then, flag recomputed', floor=4)
+    rep.rule('R16.create', 'create: the table handed out is the empty table (no slot valid, count 0, all-complete true), whatever the allocator returned', floor=4)
     rep.rule('R16.clear', 'clear: every entry wiped, count 0, all-complete true', floor=3)
     rep.rule('R16.status', "'all complete' is recomputed as: no valid entry is incomplete (for-all over indices 0..15)", floor=4)
     rep.rule('R16.query', "'empty' <=> count == 0; 'all complete' returns the recomputed flag", floor=2)
@@ -302,6 +303,35 @@ def decide(rep, prog, cx=None):
                   function='session_table_clear', file=fnf)
         rep.check(cx.tfield(st, 'count') == ZERO, 'R16.clear', 'count', 'clear leaves count %s' % short(cx.tfield(st, 'count')), function='session_table_clear', file=fnf)
         rep.check(cx.tfield(st, 'all_complete') == ONE, 'R16.clear', 'flag', "clear leaves 'all complete' = %s" % short(cx.tfield(st, 'all_complete')), function='session_table_clear', file=fnf)
+
+    # ---------------- create: the table a session starts from is the empty table, whatever the allocator returned
+    I, outs = cx.run('session_table_create', lambda st: [])
+    ubs(I, 'R16.create')
+    nmade = 0
+    for st, v in outs:
+        t = st.canon(v.t)
+        if t == ZERO:
+            rep.check(any(e[0] == 'malloc-failed' for e in st.trace), 'R16.create', 'null', 'create returns NULL without an allocation failure',
+                      function='session_table_create', file=fnf)
+            continue
+        if t[0] != 'ptr' or t[1] not in st.objs or not st.objs[t[1]].heap:
+            rep.fail('R16.create', 'ret', 'create returns %s, not a freshly allocated table' % short(t), function='session_table_create', file=fnf)
+            continue
+        nmade += 1
+        o = st.objs[t[1]]
+        rep.check(st.prove_le(C(cx.trec.size), o.size), 'R16.create', 'size', 'create allocates %s bytes for a table of %d' % (short(o.size), cx.trec.size),
+                  function='session_table_create', file=fnf)
+        # (only the `valid` flags decide what the table holds: every reader tests them first)
+        vs = [st.canon(mem.load_byte(st, o, (), cx.eoff + i * cx.esz + cx.foff('valid'))) for i in range(cx.cap)]
+        bad = [i for i, b in enumerate(vs) if b != ZERO]
+        rep.check(not bad, 'R16.create', 'entries', 'a freshly created table is not the empty table: the valid flag of %d slot(s) (first: slot %d) keeps what the allocator returned: '
+                  'ghost sessions are found, counted out of step, refreshed instead of created' % (len(bad), bad[0] if bad else 0),
+                  function='session_table_create', file=fnf, sample={'fresh_table_slots_invalid': len(vs)})
+        cnt = st.canon(mem.load_scalar(st, o, C(cx.toff('count')), cx.ty('unsigned char')))
+        flg = st.canon(mem.load_scalar(st, o, C(cx.toff('all_complete')), cx.ty('unsigned char')))
+        rep.check(cnt == ZERO, 'R16.create', 'count', 'a freshly created table has count %s' % short(cnt), function='session_table_create', file=fnf)
+        rep.check(flg == ONE, 'R16.create', 'flag', "a freshly created table has 'all complete' = %s" % short(flg), function='session_table_create', file=fnf)
+    rep.check(nmade > 0, 'R16.create', 'paths', 'create never returns a table', function='session_table_create', file=fnf)
 
     # ---------------- update_complete_status
     I, outs = cx.run('session_table_update_complete_status', lambda st: [Val(tp, T0)], no_merge=True)
